@@ -170,13 +170,14 @@ func (array *Array) NextArray() (*Array, error) {
 
 // ReverseBy returns the reversed array with the specified step.
 func (array *Array) ReverseBy(step int) *Array {
+	if step < 1 {
+		step = 1
+	}
 	ra := NewArray()
-	l := len(array.msgs)
-	for i := 0; i < l; i += step {
-		for j := 0; j < step; j++ {
-			idx := (l - i - 1) - (step - 1) + j
-			ra.msgs = append(ra.msgs, array.msgs[idx])
-		}
+	l := array.Size()
+	for end := l; end > 0; end -= step {
+		begin := max(end-step, 0)
+		ra.msgs = append(ra.msgs, array.msgs[begin:end]...)
 	}
 	return ra
 }
